@@ -59,7 +59,9 @@ def make_invocation(rng, world, with_faults):
     if r < 0.55:
         e = rng.choice([x for x in pool if x["family"] != "broken"])
     inp = e["pref"] if (e["pref"] and rng.random() < 0.8) else rng.choice(listings + binaries)
-    binary = inp.endswith(".o")
+    binary = inp in binaries
+    if rng.random() < 0.05:
+        binary = not binary  # the wrong flag for this file: the library fails, so must the command
     all_matches = rng.random() < 0.5
     only_addr = rng.random() < 0.4
     macros = list(e["macros"]) if e.get("macros") else None
